@@ -146,44 +146,53 @@ def record_and_judge(items, tmp, probes=True, timeout=3000):
     return traces, verdicts, judged, st, tr
 
 
-def run_corpus(tier: str, seed: int, focus: str, items=None):
+def run_corpus(tier: str, seed: int, focus: str, items=None, chunk: int = 6000):
     items = items if items is not None else build_items(tier, seed, focus)
     byid = {it["id"]: it for it in items}
-    with Scratch("engine") as tmp:
-        traces, verdicts, judged, st, tr = record_and_judge(items, tmp)
-    res = {"items": len(items), "judged": judged, "states": st, "transitions": tr, "failures": [],
-           "events": sum(len(t["ev"]) for t in traces), "cut": sum(1 for t in traces if t["cut"]),
-           "slow": sum(1 for t in traces if t["slow"]), "kinds": {}, "clauses": {}, "samples": []}
+    res = {"items": len(items), "judged": 0, "states": 0, "transitions": 0, "failures": [], "events": 0, "cut": 0,
+           "slow": 0, "kinds": {}, "clauses": {}, "samples": []}
     seen = set()
     nontriv = 0
-    for t in traces:
-        key = item_key(byid[t["id"]])
-        for e in t["ev"]:
-            res["kinds"][e["k"]] = res["kinds"].get(e["k"], 0) + 1
-        if key not in seen:
-            seen.add(key)
-            if nontrivial(t):
-                nontriv += 1
-                if len(res["samples"]) < 4 and t["id"] % 53 == 0:
-                    it = byid[t["id"]]
-                    res["samples"].append({"problem": it["P"], "cfg": {k: it["cfg"][k] for k in ("ca", "vh", "dh")},
-                                           "mode": it["mode"], "var": it.get("var", -1),
-                                           "events": [e["k"] for e in t["ev"]][:60]})
+    dedupe = set()
+    # chunks keep the memory bounded in the thorough tier (each chunk is recorded and judged, then dropped)
+    for c0 in range(0, len(items), chunk):
+        part = items[c0:c0 + chunk]
+        with Scratch("engine") as tmp:
+            traces, verdicts, judged, st, tr = record_and_judge(part, tmp)
+        res["judged"] += judged
+        res["states"] += st
+        res["transitions"] += tr
+        res["events"] += sum(len(t["ev"]) for t in traces)
+        res["cut"] += sum(1 for t in traces if t["cut"])
+        res["slow"] += sum(1 for t in traces if t["slow"])
+        for t in traces:
+            key = item_key(byid[t["id"]])
+            for e in t["ev"]:
+                res["kinds"][e["k"]] = res["kinds"].get(e["k"], 0) + 1
+            if key not in seen:
+                seen.add(key)
+                if nontrivial(t):
+                    nontriv += 1
+                    if len(res["samples"]) < 4 and t["id"] % 53 == 0:
+                        it = byid[t["id"]]
+                        res["samples"].append({"problem": it["P"], "cfg": {k: it["cfg"][k] for k in ("ca", "vh", "dh")},
+                                               "mode": it["mode"], "var": it.get("var", -1),
+                                               "events": [e["k"] for e in t["ev"]][:60]})
+        if not res["samples"] and traces:
+            it = byid[traces[0]["id"]]
+            res["samples"].append({"problem": it["P"], "cfg": it["cfg"], "mode": it["mode"],
+                                   "events": [e["k"] for e in traces[0]["ev"]][:60]})
+        for rid, l, clause in verdicts:
+            if (rid, clause) in dedupe:
+                continue
+            dedupe.add((rid, clause))
+            if clause.startswith("XX:"):
+                raise Machinery(f"trace {rid} left the specification's scope: {clause} item={json.dumps(byid[rid])[:500]}")
+            res["clauses"][clause] = res["clauses"].get(clause, 0) + 1
+            res["failures"].append((byid[rid], l, clause))
+        del traces
     res["distinct"] = len(seen)
     res["nontrivial"] = nontriv
-    dedupe = set()
-    for rid, l, clause in verdicts:
-        if (rid, clause) in dedupe:
-            continue
-        dedupe.add((rid, clause))
-        if clause.startswith("XX:"):
-            raise Machinery(f"trace {rid} left the specification's scope: {clause} item={json.dumps(byid[rid])[:500]}")
-        res["clauses"][clause] = res["clauses"].get(clause, 0) + 1
-        res["failures"].append((byid[rid], l, clause))
-    if not res["samples"] and traces:
-        it = byid[traces[0]["id"]]
-        res["samples"].append({"problem": it["P"], "cfg": it["cfg"], "mode": it["mode"],
-                               "events": [e["k"] for e in traces[0]["ev"]][:60]})
     return res
 
 
